@@ -22,6 +22,7 @@ import (
 	"verif/props/c13"
 	"verif/props/c14"
 	"verif/props/c15"
+	"verif/props/c17"
 	"verif/props/c18"
 	"verif/props/c19"
 	"verif/props/c20"
@@ -43,6 +44,7 @@ var registry = map[string]func(fw.Config, *fw.Rec){
 	"C13": c13.Run,
 	"C14": c14.Run,
 	"C15": c15.Run,
+	"C17": c17.Run,
 	"C18": c18.Run,
 	"C19": c19.Run,
 	"C20": c20.Run,
